@@ -552,7 +552,12 @@ def twin_of(rnd, td, name):
 
 # --------------------------------------------------------------------------- version chains (C10)
 
-def gen_chain(rnd, cid, pool):
+# (enum encoding, encoding override on the unit variant, shape it is turned into): the unit variant's
+# own container kind differs from the enum's, then the documented edit "unit -> variant with optional fields"
+FORCED_CHAINS = [(None, "map", "named"), (None, "map", "tuple"), ("array", "map", "named"), ("map", "array", "named"), ("map", "array", "tuple"), ("map", None, "named"), (None, None, "tuple")]
+
+
+def gen_chain(rnd, cid, pool, force=None):
     """A chain of versions of one struct (and of an enum used only as an optional field)."""
     import copy
     versions = []
@@ -562,12 +567,17 @@ def gen_chain(rnd, cid, pool):
     e.kind = "enum"
     e.index_only = rnd.random() < 0.4
     e.encoding = rnd.choice([None, "map", "array"])
+    if force:
+        e.index_only = False
+        e.encoding = force[0]
     if e.index_only:
         e.variants = [("V%d" % k, k, "unit", None, None, []) for k in range(rnd.choice([1, 2, 3]))]
     else:
         e.variants = [("V0", 0, "unit", rnd.choice([None, "map", "array"]), None, []), ("V1", 1, "named", None, None, gen_fields(rnd, 2, pool, False, allow_skip=False, prefix="g"))]
         if rnd.random() < 0.5:
             e.variants.append(("V2", 3, "unit", rnd.choice([None, "map", "array"]), rnd.choice([None, 7]), []))
+        if force:
+            e.variants[0] = ("V0", 0, "unit", force[1], None, [])
     finish(e)
     enum_versions.append(e)
     s = TypeDef("C%dS0" % cid)
@@ -596,6 +606,8 @@ def gen_chain(rnd, cid, pool):
         enf = [f for f in prev.fields if f.name == "en"][0]
         used = set(ever_used)
         edit = rnd.choice(["add_high", "add_gap", "drop_opt", "add_variant", "unit_to_fields", "flip_nb", "add_high", "add_gap"])
+        if force and step == 1:
+            edit = "unit_to_fields"
         newt = rnd.choice([opt(U8), opt(STRING), opt(vec(U16)), NIL_WITH, opt(I64), opt(bmap(BOOL))])
         if edit == "add_high":
             ns.fields.append(Field("a%d" % step, max(used) + rnd.choice([1, 1, 2, 5]), newt, tag=rnd.choice([None, None, 9, 300])))
@@ -622,8 +634,10 @@ def gen_chain(rnd, cid, pool):
             units = [k for k, v in enumerate(ne.variants) if v[2] == "unit"]
             if units:
                 k = rnd.choice(units)
-                (vn, vi, vshape, venc, vtag, vfields) = ne.variants[k]
                 shape = rnd.choice(["named", "tuple"])
+                if force and step == 1:
+                    k, shape = 0, force[2]
+                (vn, vi, vshape, venc, vtag, vfields) = ne.variants[k]
                 nf = [Field("u%d" % j, j, rnd.choice([opt(U8), opt(STRING), NIL_WITH])) for j in range(rnd.choice([1, 2]))]
                 ne.variants[k] = (vn, vi, shape, venc, vtag, nf)
         elif edit == "flip_nb":
@@ -823,8 +837,8 @@ def main():
             twins.append((td, tw))
     chains = []
     plain_pool = [t for t in pool if not t.lifetime]
-    for c in range(nchains):
-        vs, es, ctl = gen_chain(rnd, c, plain_pool[-10:])
+    for c in range(nchains + len(FORCED_CHAINS)):
+        vs, es, ctl = gen_chain(rnd, c, plain_pool[-10:], force=FORCED_CHAINS[c - nchains] if c >= nchains else None)
         chains.append((vs, es, ctl))
         for e in es:
             all_types.append(e)
